@@ -1,5 +1,8 @@
 import BoltonsVerif.C13.Proofs
 import BoltonsVerif.C13.SessionProofs
+import BoltonsVerif.C13.Hygiene
+import BoltonsVerif.C13.Text
+import BoltonsVerif.Generated.C13_Text
 /-
 C13 — property theorems for the model of `funcutils.wraps / update_wrapper /
 FunctionBuilder` (statements, short derivations from `Proofs.lean`, non-vacuity
@@ -390,6 +393,71 @@ theorem defaults_stay_attached (f : Func) (wf : WfFunc f) (inj : List Name)
   rw [hd p he, hk2, hp, hk, hfilter, hfilter, fromFunc_kwSig]
   rfl
 
+/-- ANY `injected` and `expected` lists together, whenever `update_wrapper` accepts them: the own
+    signature changes by exactly those parameters.  Taking the expected names away from the new
+    positional parameters leaves the old ones minus the injected names - same order, same defaults;
+    every expected name is a positional parameter with exactly the default asked for (`none` =
+    required); the keyword-only parameters are the old ones minus the injected names; `*args` and
+    `**kw` are untouched; the expected names are pairwise distinct -/
+theorem injected_expected_exact (f : Func) (wf : WfFunc f) (inj : List Name)
+    (exp : List (Name × Option Val)) (o : Opts) (ident : Nat) (w : Func)
+    (h : updateWrapper f inj exp o ident = .ok w) :
+    (sigOf w).pos.filter (keyNotIn (exp.map Prod.fst)) = (sigOf f).pos.filter (keyNotIn inj) ∧
+      (∀ zd ∈ exp, get? zd.1 (sigOf w).pos = some zd.2) ∧
+      (sigOf w).kwonly = (sigOf f).kwonly.filter (keyNotIn inj) ∧
+      (sigOf w).varargs = (sigOf f).varargs ∧ (sigOf w).varkw = (sigOf f).varkw ∧
+      (exp.map Prod.fst).Nodup := by
+  obtain ⟨fb1, fb2, h1, h2, _, rfl⟩ := updateWrapper_inv h
+  obtain ⟨wf1, hp, hk, hr1⟩ := injectAll_spec (wfFB_fromFunc wf) inj h1
+  obtain ⟨_, hk2, hr2, _, _⟩ := expectAll_spec wf1 exp h2
+  obtain ⟨e1, e2, e3, _⟩ := expectAll_exact wf1 exp h2
+  have hrest := hr2.trans hr1
+  simp only [FB.rest, Prod.mk.injEq] at hrest
+  obtain ⟨_, _, _, hva, hvk, _, _, _⟩ := hrest
+  rw [sigOf_toFunc]
+  refine ⟨?_, e2, ?_, hva, hvk, e3⟩
+  · show fb2.posSig.filter _ = _
+    rw [e1, hp]; rfl
+  · show fb2.kwSig = _
+    rw [hk2, hk, fromFunc_kwSig]
+
+/-- an entry of `__annotations__` naming no parameter is not reported by `getfullargspec` -/
+theorem get?_annOf_of_not_mem {f : Func} {p : Name} (hp : p ∉ paramNames f) : get? p (annOf f) = none := by
+  unfold annOf
+  induction f.ann with
+  | nil => rfl
+  | cons q r ih =>
+    obtain ⟨k, v⟩ := q
+    by_cases hk : k ∈ paramNames f
+    · have : keyIn (paramNames f) (k, v) = true := by simpa [keyIn] using hk
+      rw [List.filter_cons_of_pos this, get?_cons, if_neg (fun (e : k = p) => hp (e ▸ hk)), ih]
+    · have : ¬ keyIn (paramNames f) (k, v) = true := by simpa [keyIn] using hk
+      rw [List.filter_cons_of_neg this, ih]
+
+/-- annotations as `inspect.signature` shows them, whatever is injected and expected: a parameter
+    that was a parameter of `f` shows the annotation it had in `f` (or none), a parameter that is
+    new shows none.  (For a name that is injected AND expected this describes the code as it is -
+    `remove_arg` leaves the builder's `annotations` alone, so the re-added parameter shows the
+    annotation of the removed one; the statement leaves that case open and the correspondence
+    does not compare it: `readdedW`.) -/
+theorem annotations_stay_attached (f : Func) (wf : WfFunc f) (inj : List Name)
+    (exp : List (Name × Option Val)) (o : Opts) (ident : Nat) (w : Func)
+    (h : updateWrapper f inj exp o ident = .ok w) (p : Name) :
+    get? p w.ann = (if p ∈ paramNames f then get? p f.ann else none) ∧ w.retAnn = f.retAnn := by
+  obtain ⟨fb1, fb2, h1, h2, _, rfl⟩ := updateWrapper_inv h
+  obtain ⟨wf1, _, _, hr1⟩ := injectAll_spec (wfFB_fromFunc wf) inj h1
+  obtain ⟨_, _, hr2, _, _⟩ := expectAll_spec wf1 exp h2
+  have hrest := hr2.trans hr1
+  simp only [FB.rest, Prod.mk.injEq] at hrest
+  obtain ⟨_, _, _, _, _, hann, hret, _⟩ := hrest
+  refine ⟨?_, hret⟩
+  show get? p fb2.annotations = _
+  rw [hann]
+  show get? p (annOf f) = _
+  by_cases hp : p ∈ paramNames f
+  · rw [if_pos hp]; exact get?_annOf hp
+  · rw [if_neg hp]; exact get?_annOf_of_not_mem hp
+
 /-- the function `update_wrapper` returns is again a well-formed function object - so it can
     be wrapped again, and all of the above applies to stacks of decorators -/
 theorem wrapper_wellformed (f : Func) (wf : WfFunc f) (inj : List Name)
@@ -431,6 +499,74 @@ theorem stacked_wraps (f : Func) (wf : WfFunc f) (o : Opts) (n : Nat) :
     simp only [wrapsN, hw]
     exact hw'
 
+/-! ## calls through a stack of decorators -/
+
+/-- every function of the list is a plain `wraps` of something with `f`'s own signature -/
+def PlainOver (f : Func) (ws : List Func) : Prop :=
+  ∀ w ∈ ws, ∃ inner o ident, updateWrapper inner [] [] o ident = .ok w ∧ sigOf inner = sigOf f
+
+/-- a call the innermost function accepts travels down any chain of plain wrappers (each user
+    wrapper calling the next function with what it received) and arrives with the same bound arguments -/
+theorem chain_forwarding (f : Func) (ws : List Func) (hws : PlainOver f ws) (c : Call) (b : Bound)
+    (hb : bind (sigOf f) c = some b) :
+    ∃ c', travel ws c = some c' ∧ bind (sigOf f) c' = some b := by
+  induction ws generalizing c with
+  | nil => exact ⟨c, rfl, hb⟩
+  | cons w r ih =>
+    obtain ⟨inner, o, ident, hw, hs⟩ := hws w (by simp)
+    obtain ⟨c1, h1, h2⟩ := forwarding inner o ident w hw c b (hs ▸ hb)
+    rw [hs] at h2
+    obtain ⟨c', h3, h4⟩ := ih (fun x hx => hws x (by simp [hx])) c1 h2
+    exact ⟨c', by simp only [travel, h1]; exact h3, h4⟩
+
+/-- every level of a stack built by `stackUp` is a plain `wraps` of a well-formed function with `f`'s own signature -/
+theorem stackUp_plainOver (f : Func) (o : Opts) (n : Nat) (ws : List Func)
+    (hws : PlainOver f ws) (hwf : ∀ w ∈ ws, WfFunc w ∧ sigOf w = sigOf f) (res : List Func)
+    (h : stackUp o n ws = .ok res) : PlainOver f res ∧ ∀ w ∈ res, WfFunc w ∧ sigOf w = sigOf f := by
+  induction n generalizing ws with
+  | zero => simp only [stackUp, Except.ok.injEq] at h; subst h; exact ⟨hws, hwf⟩
+  | succ n ih =>
+    cases ws with
+    | nil => simp only [stackUp, Except.ok.injEq] at h; subst h; exact ⟨hws, hwf⟩
+    | cons w r =>
+      obtain ⟨wfw, hsw⟩ := hwf w (by simp)
+      obtain ⟨w', hw', hs', _⟩ := sig_preserved w wfw o (w.ident + 1)
+      have hw'' : updateWrapper w [] [] o = .ok w' := hw'
+      simp only [stackUp, hw''] at h
+      refine ih (w' :: w :: r) ?_ ?_ h
+      · intro x hx
+        simp only [List.mem_cons] at hx
+        rcases hx with rfl | hx
+        · exact ⟨w, o, w.ident + 1, hw', hsw⟩
+        · exact hws x (by simpa using hx)
+      · intro x hx
+        simp only [List.mem_cons] at hx
+        rcases hx with rfl | hx
+        · exact ⟨wrapper_wellformed w wfw [] [] o _ _ hw', hs'.trans hsw⟩
+        · exact hwf x (by simpa using hx)
+
+/-- a stack of `n + 1` plain `wraps` decorators: every call the innermost function accepts
+    travels down the whole stack - each user wrapper calling the next function with what it
+    received - and reaches the innermost function with the same bound arguments, defaults included;
+    and the outermost function has the innermost one's own signature, so it accepts exactly those calls -/
+theorem stacked_forwarding (f : Func) (wf : WfFunc f) (o : Opts) (n : Nat) (w1 : Func) (ws : List Func)
+    (h1 : updateWrapper f [] [] o = .ok w1) (h : stackUp o n [w1] = .ok ws) :
+    (∀ w ∈ ws, sigOf w = sigOf f) ∧
+    ∀ (c : Call) (b : Bound), bind (sigOf f) c = some b →
+      ∃ c', travel ws c = some c' ∧ bind (sigOf f) c' = some b := by
+  obtain ⟨w1', hw1, hs1, _⟩ := sig_preserved f wf o (f.ident + 1)
+  have e : w1' = w1 := by
+    have : updateWrapper f [] [] o = .ok w1' := hw1
+    rw [h1] at this; exact (Except.ok.inj this).symm
+  subst e
+  have hp : PlainOver f [w1'] := by
+    intro x hx; simp at hx; subst hx; exact ⟨f, o, f.ident + 1, hw1, rfl⟩
+  have hq : ∀ w ∈ [w1'], WfFunc w ∧ sigOf w = sigOf f := by
+    intro x hx; simp at hx; subst hx
+    exact ⟨wrapper_wellformed f wf [] [] o _ _ hw1, hs1⟩
+  obtain ⟨r1, r2⟩ := stackUp_plainOver f o n [w1'] hp hq ws h
+  exact ⟨fun w hw => (r2 w hw).2, fun c b hb => chain_forwarding f ws r1 c b hb⟩
+
 /-! ## any history of `FunctionBuilder.remove_arg` / `add_arg` calls -/
 
 /-- whatever sequence of `remove_arg` / `add_arg(…[, kwonly=True])` calls is made on
@@ -451,6 +587,16 @@ theorem history_defaults_stay_attached (f : Func) (wf : WfFunc f) (ops : List BO
     fun p hp => (hd p hp).trans (by rw [fromFunc_kwSig]; rfl), hva, hvk, hann, hret, hasy,
     hname, hdoc, hmod⟩
 
+/-- annotations as `inspect.signature` shows them after any builder history (same reading as
+    `annotations_stay_attached`; the names left open by the statement are `readded ops`) -/
+theorem history_annotations_stay_attached (f : Func) (wf : WfFunc f) (ops : List BOp) (ident : Nat)
+    (w : Func) (h : buildHistory f ops ident = .ok w) (p : Name) :
+    get? p w.ann = (if p ∈ paramNames f then get? p f.ann else none) := by
+  rw [(history_defaults_stay_attached f wf ops ident w h).2.2.2.2.1]
+  by_cases hp : p ∈ paramNames f
+  · rw [if_pos hp]; exact get?_annOf hp
+  · rw [if_neg hp]; exact get?_annOf_of_not_mem hp
+
 /-- … and it forwards its own bound arguments, like every function the builder compiles -/
 theorem history_forwarding (f : Func) (ops : List BOp) (ident : Nat) (w : Func)
     (h : buildHistory f ops ident = .ok w) (c : Call) (b : Bound) (hb : bind (sigOf w) c = some b) :
@@ -463,6 +609,73 @@ theorem history_forwarding (f : Func) (ops : List BOp) (ident : Nat) (w : Func)
   unfold callWrapper
   rw [hb, parseCall_body fb ident _ hn]
   exact he
+
+/-! ## the name the user's wrapper goes by inside the built function (`Hygiene.lean`)
+
+`callWrapper` above takes for granted that the callee of the generated body IS the user's wrapper.
+That depends on names: the body runs in `{call_name: wrapper, '_func': func}`, the `def` binds the
+function's own name there, and a parameter of the same name shadows it. -/
+
+/-- whatever the parameters, `*args`, `**kw` and the function itself are called - `_call`,
+    `__call`, … included - the name `update_wrapper` picks (its `while` loop, which ends within
+    as many rounds as there are names to avoid) resolves, inside the body, to the user's wrapper:
+    not to an argument, not to the new function itself, not to `_func`.  `cn k` is the spelling
+    `'_' * k + '_call'` (any injective numbering that never hits the key `_func`). -/
+theorem callee_reaches_wrapper (cn : Nat → Name) (hinj : ∀ i j, cn i = cn j → i = j) (funcKey : Name)
+    (hk : ∀ k, cn k ≠ funcKey) (fb : FB) : fb.callee cn funcKey = .userWrapper := by
+  have hfresh := pickCall_fresh cn hinj fb.takenNames
+  unfold FB.callee
+  apply resolve_fresh
+  · intro hm
+    apply hfresh
+    simp only [FB.takenNames, List.mem_append] at hm ⊢
+    rcases hm with ((hm | hm) | hm) | hm
+    · exact Or.inl (Or.inl (Or.inl (Or.inl hm)))
+    · exact Or.inl (Or.inl (Or.inr hm))
+    · exact Or.inl (Or.inl (Or.inl (Or.inr hm)))
+    · exact Or.inl (Or.inr hm)
+  · intro he
+    apply hfresh
+    simp only [FB.takenNames, List.mem_append, List.mem_singleton]
+    exact Or.inr he
+  · exact hk _
+
+/-! ## the generated source, character by character (`Text.lean`)
+
+`FB.invocationSpecs` drops the ITEM `*`; the code removes CHARACTERS: `_KWONLY_MARKER.sub('', sig)`
+with the regex `\*\s*,\s*` on `'(' + ', '.join(items) + ')'`, then `sig[1:-1]`. -/
+
+/-- on the text of any builder state - any names (no `*`, no `,`, no white space in a name), any
+    number of parameters of every kind - the regex substitution yields exactly the text of the
+    invocation items: the bare `*` and its separator go, the star of `*args`, the stars of `**kw`,
+    every name, every `k=k` and every other separator stay -/
+theorem invocation_text (sp : Name → List Char) (hsp : ∀ n, NameText (sp n)) (fb : FB) :
+    scan .norm ('(' :: (renderItems sp (formatArgspec fb.args fb.varargs fb.varkw fb.kwonlyargs true) ++ [')'])) =
+      '(' :: (renderItems sp fb.invocationSpecs ++ [')']) := by
+  rw [scan_parens, scan_render sp hsp _ (starNotLast_format _ _ _ _ _)]
+  rfl
+
+/-- the same substitution leaves the text of a parameter list WITH `*args` alone, and more
+    generally every text without a bare star -/
+theorem text_without_marker_unchanged (sp : Name → List Char) (hsp : ∀ n, NameText (sp n)) (l : List Spec)
+    (hl : ∀ s ∈ l, notBareStar s = true) :
+    scan .norm (renderItems sp l) = renderItems sp l := by
+  rw [scan_render sp hsp l (starNotLast_of_allNB hl), List.filter_eq_self.mpr hl]
+
+/-- nothing is lost by reading the text as a list of items: two item lists with the same text
+    are the same list (names: not empty, no `*`, `,`, `=`, white space; distinct names are spelled
+    differently) - in particular the `def` header and the `_call(...)` argument list Python
+    compiles determine the builder's `sigSpecs` / `invocationSpecs` -/
+theorem text_determines_items (sp : Name → List Char) (hsp : ∀ n, IdentText (sp n))
+    (hinj : ∀ n m, sp n = sp m → n = m) (l l' : List Spec)
+    (h : renderItems sp l = renderItems sp l') : l = l' :=
+  renderItems_inj sp hsp hinj l l' h
+
+/-- the character-level telling against the source as it is NOW: for each of the 36 builder
+    shapes of the regenerated table, `'(' + ', '.join(items) + ')'` is the text `get_sig_str`
+    returned, and the regex scanner applied to it, minus the parentheses, is the text
+    `get_invocation_str` returned (modulo white space; evaluated by the kernel) -/
+theorem generated_text_agrees : Gen.textTable.all textEntryOk = true := by decide +kernel
 
 /-! ## several uses in one process (sessions)
 
@@ -564,8 +777,39 @@ example : (buildHistory exF [.remove 2, .add 6 none false, .add 8 (some 42) true
     (fun w => sigOf w) = some ⟨[(1, none), (6, none), (3, some 13)], some 7, [(4, none), (8, some 42)], some 9⟩ := by
   decide
 example : (wrapsN exF {} 3).toOption.map (fun w => (sigOf w, w.wrapped)) = some (sigOf exF, some 3) := by decide
+example : (match wraps exF with
+    | .ok w1 => (stackUp {} 2 [w1]).toOption.bind (fun ws => travel ws ⟨[101], [(4, 110), (8, 111)]⟩)
+    | .error _ => none) = some ⟨[101, 12, 13], [(4, 110), (5, 25), (8, 111)]⟩ := by decide
 example : errOf (updateWrapper exF [] [(7, none)]) = some .syntaxError := by decide
+-- p4 (annotated 34) injected and expected again: the name is left open (`readdedW`); p1 keeps 31, p6 is new
+example : readdedW [4] [(4, some 44), (6, none)] = [4] := by decide
+example : (updateWrapper exF [4] [(4, some 44), (6, none)]).toOption.map
+    (fun w => (get? 1 w.ann, get? 6 w.ann, paramNames w)) = some (some 31, none, [1, 6, 2, 3, 4, 7, 5, 9]) := by decide
+example : readded [.remove 2, .add 6 none false, .remove 5, .add 2 (some 42) true] = [2] := by decide
 example : errOf (updateWrapper { exF with varkw := none } [8] []) = some .missingArgument := by decide
+
+-- names: `_call` = 90, `__call` = 91, `___call` = 92, …; `_func` = 80
+-- def _call(p1, __call): the loop goes on to `___call`; always using `_call` would call the function itself,
+-- and with a parameter of that name the argument
+example : pickCall (fun k => 90 + k) (FB.fromFunc { exF with name := 90, args := [1, 91, 3] }).takenNames = 92 := by decide
+example : (FB.fromFunc { exF with name := 90 }).calleeNaive (fun k => 90 + k) 80 = .self := by decide
+example : (FB.fromFunc { exF with args := [1, 90, 3] }).calleeNaive (fun k => 90 + k) 80 = .argument := by decide
+example : (FB.fromFunc { exF with name := 90, args := [1, 91, 3] }).callee (fun k => 90 + k) 80 = .userWrapper := by decide
+-- inject p2 (default 12), p4 (keyword-only); expect p6 (required) and p8=48: p1, p3 keep place and default
+example : (updateWrapper exF [2, 4] [(6, none), (8, some 48)]).toOption.map (fun w => sigOf w) =
+    some ⟨[(1, none), (6, none), (3, some 13), (8, some 48)], some 7, [(5, some 25)], some 9⟩ := by decide
+
+-- the regex on concrete text: `*, ` goes; `*args,` and `**kw` stay; white space around the comma is eaten
+example : scan .norm "(a, b, *, k=k, j=j, **kw)".toList = "(a, b, k=k, j=j, **kw)".toList := by decide
+example : scan .norm "(a, *args, k=k, **kw)".toList = "(a, *args, k=k, **kw)".toList := by decide
+example : scan .norm "(* \t ,  k=k)".toList = "(k=k)".toList := by decide
+example : scan .norm "(a, *)".toList = "(a, *)".toList := by decide
+example : NameText "kwargs".toList := ⟨by decide, by decide⟩
+example : IdentText "_call".toList := ⟨by decide, by decide⟩
+example : splitItems [] "p1, *p7, p4=p4, **p9".toList =
+    ["p1".toList, "*p7".toList, "p4=p4".toList, "**p9".toList] := by decide
+example : renderItems (fun n => ['p', Char.ofNat (48 + n)]) (FB.fromFunc exF).invocationSpecs =
+    "p1, p2, p3, *p7, p4=p4, p5=p5, **p9".toList := by decide
 
 /-- the same function wrapped three times, the second time with its keyword-only `p5=25`
     injected; then the user edits the second wrapper: nobody else notices -/
